@@ -201,7 +201,9 @@ def finish(run, error=None):
         out.write("KNOWN-FINDING: property=%s %s\n" % (run.pid, f))
     if error is not None:
         out.write("ANALYSIS-ERROR property=%s %s\n" % (run.pid, error))
-        return 2
+        if not new:
+            return 2
+        # a definite violation found before the analyser gave up elsewhere is still a violation
     if new:
         rdir = os.path.join(VERIF, "evidence", "replay")
         os.makedirs(rdir, exist_ok=True)
